@@ -12,11 +12,11 @@ import (
 
 type hsh = types.AuthorizerHash
 
-func model(slot int, gs map[int]hsh, pools [][]hsh, queues [][]hsh, O int) [][]hsh {
+func model(slot int, gs map[int][]hsh, pools [][]hsh, queues [][]hsh, O int) [][]hsh {
 	out := make([][]hsh, len(pools))
 	for c := range pools {
 		p := append([]hsh(nil), pools[c]...)
-		if a, ok := gs[c]; ok {
+		for _, a := range gs[c] { // each authorizer used by that core's guarantees: its leftmost occurrence goes
 			for i := range p {
 				if p[i] == a {
 					p = append(p[:i:i], p[i+1:]...)
@@ -128,25 +128,35 @@ func TestVerifC24(t *testing.T) {
 			}
 		}
 		slot := r.IntN(3*E) + r.IntN(2)*1_000_000
-		gs := map[int]hsh{}
+		gs := map[int][]hsh{}
+		multi := false
 		var eg types.GuaranteesExtrinsic
 		for c := 0; c < C; c++ {
 			if r.IntN(2) == 0 || (full && r.IntN(20) != 0) {
 				continue
 			}
-			var a hsh
-			switch r.IntN(4) {
-			case 0:
-				a = small(r, alphabet+2) // possibly absent
-			default:
-				if len(pools[c]) > 0 {
-					a = pools[c][r.IntN(len(pools[c]))]
-				} else {
-					a = small(r, alphabet)
-				}
+			ng := 1
+			if r.IntN(5) == 0 {
+				ng = 2 + r.IntN(2) // several guarantees naming this core
 			}
-			gs[c] = a
-			eg = append(eg, types.ReportGuarantee{Report: types.WorkReport{CoreIndex: types.CoreIndex(c), AuthorizerHash: types.OpaqueHash(a)}})
+			for k := 0; k < ng; k++ {
+				var a hsh
+				switch r.IntN(4) {
+				case 0:
+					a = small(r, alphabet+2) // possibly absent
+				default:
+					if len(pools[c]) > 0 {
+						a = pools[c][r.IntN(len(pools[c]))]
+					} else {
+						a = small(r, alphabet)
+					}
+				}
+				gs[c] = append(gs[c], a)
+				eg = append(eg, types.ReportGuarantee{Report: types.WorkReport{CoreIndex: types.CoreIndex(c), AuthorizerHash: types.OpaqueHash(a)}})
+			}
+			if ng > 1 {
+				multi = true
+			}
 		}
 		want := model(slot, gs, pools, queues, O)
 
@@ -206,19 +216,24 @@ func TestVerifC24(t *testing.T) {
 		if len(gs) > 0 {
 			h.Inc("with_guarantees")
 		}
-		for c, a := range gs {
-			cnt := 0
-			for _, x := range pools[c] {
-				if x == a {
-					cnt++
+		for c, as := range gs {
+			for _, a := range as {
+				cnt := 0
+				for _, x := range pools[c] {
+					if x == a {
+						cnt++
+					}
+				}
+				switch {
+				case cnt == 0:
+					h.Inc("authorizer_absent")
+				case cnt > 1:
+					h.Inc("authorizer_duplicated")
 				}
 			}
-			switch {
-			case cnt == 0:
-				h.Inc("authorizer_absent")
-			case cnt > 1:
-				h.Inc("authorizer_duplicated")
-			}
+		}
+		if multi {
+			h.Inc("blocks_with_several_guarantees_for_one_core")
 		}
 		if full {
 			h.Inc("full_params")
